@@ -475,6 +475,8 @@ var C17List = Register(&Check[CaseTokList]{Prop: "C17", Name: "C17.list", Gen: g
 type CaseViaBr struct {
 	Head B           `json:"head"` // sent-protocol and sent-by (no ';')
 	L    TokListSpec `json:"list"` // ';'-separated, ',' or end terminated
+	// NoParams: the Via body is the head alone (no ';' anywhere): nothing to extract
+	NoParams bool `json:"no_params,omitempty"`
 }
 
 var C17Via = Register(&Check[CaseViaBr]{
@@ -514,11 +516,19 @@ var C17Via = Register(&Check[CaseViaBr]{
 		}
 		l.Term = pick(t, "term", "term", "end", "end")
 		l.Tail = B(pick(t, "tail", " SIP/2.0/UDP other;branch=z9hG4bKsecond", "x"))
-		return CaseViaBr{Head: B(pick(t, "head", "SIP/2.0/UDP 1.2.3.4:5060", "SIP/2.0/TCP host", "SIP / 2.0 / UDP h", "x")), L: l}
+		return CaseViaBr{Head: B(pick(t, "head", "SIP/2.0/UDP 1.2.3.4:5060", "SIP/2.0/TCP host", "SIP / 2.0 / UDP h", "x", "")), L: l,
+			NoParams: rapid.IntRange(0, 15).Draw(t, "noparams") == 0}
 	},
 	Eval: func(c CaseViaBr) Result {
 		txt, items, _, _ := renderTokList(c.L, 0)
 		v := append(append(append([]byte{}, c.Head...), ';'), txt...)
+		if c.NoParams {
+			v = append(append([]byte{}, c.Head...), bytes.ReplaceAll(l2noSemi(txt), []byte(";"), nil)...)
+			if sig, ln := sipsp.GetViaBrSig(v); sig != 0 || ln != 0 {
+				return viol("GetViaBrSig(%s) = (%#x, %d) for a Via body without parameters", B(v), uint(sig), ln)
+			}
+			return ok(false, "no-params")
+		}
 		sig, ln := sipsp.GetViaBrSig(v)
 		// reference: the first parameter named branch (case-insensitive)
 		var wantSig sipsp.StrSigId
@@ -584,4 +594,15 @@ func refTokChars(b []byte) bool {
 		}
 	}
 	return true
+}
+
+// l2noSemi keeps only the bytes of a rendered list that cannot start a parameter (used for the "no ';' at all" case).
+func l2noSemi(txt []byte) []byte {
+	out := make([]byte, 0, len(txt))
+	for _, c := range txt {
+		if c != ';' && c != '"' && c != '\\' {
+			out = append(out, c)
+		}
+	}
+	return out
 }
